@@ -871,11 +871,21 @@ impl TxPoolService {
                 .await
                 {
                     let entry = TxEntry::new(rtx, verified.cycles, fee, tx_size);
-                    if let Err(e) = _submit_entry(tx_pool, status, entry, &self.callbacks) {
-                        error!("readd_detached_tx submit_entry {} error {}", tx_hash, e);
-                    } else {
-                        debug!("readd_detached_tx submit_entry {}", tx_hash);
-                        readded = true;
+                    match _submit_entry(tx_pool, status, entry, &self.callbacks) {
+                        Err(e) => {
+                            error!("readd_detached_tx submit_entry {} error {}", tx_hash, e);
+                        }
+                        Ok(evicted) => {
+                            debug!("readd_detached_tx submit_entry {}", tx_hash);
+                            readded = true;
+                            for evict in evicted {
+                                let reject = Reject::Invalidated(format!(
+                                    "invalidated by re-added tx {}",
+                                    tx_hash
+                                ));
+                                self.callbacks.call_reject(tx_pool, &evict, reject);
+                            }
+                        }
                     }
                 }
             }
